@@ -114,6 +114,12 @@ def run_plan(plan, memo=None):
             findings.append(f)
             tainted |= fam
             continue
+        if rec.get("argmut"):
+            am = rec["argmut"]
+            findings.append({"inv": "I2", "kind": kind, "op": st["op"], "diff": "argument_changed", "detail": f"argument {am['i']}", "path": f"/arg{am['i']}",
+                             "step": rec["k"], "obj": name, "world": am["after"], "pristine": am["before"]})
+            tainted |= fam
+            continue
         for n in rec.get("mut", []):
             pobs = memo.get(plan, n, "__obs__", [])
             if rec["obs"][n] != pobs:
